@@ -260,16 +260,57 @@ func (s *State) libSubstr(instr *ssa.Slice, x Val, lo, hi string) Val {
 	return r
 }
 
+func (s *State) runeElems(base string) string {
+	et := types.Typ[types.Rune]
+	key := elemKey(et, nil, "")
+	return sel(s.heapGet(key, arrSort(sInt, arrSort(sInt, sInt))), base)
+}
+
+func (s *State) declRunePreds() {
+	for _, p := range []string{"runesNoNL", "runesClean"} {
+		s.c.declare(p, fmt.Sprintf("(declare-fun %s ((Array Int Int)) Bool)", p))
+	}
+}
+
+// string(runes): assumed contract -- newline-freedom and cleanliness carry over from the rune array.
 func (s *State) libRunesToString(x Val, to types.Type) Val {
 	r := s.freshVal(to, "r2s")
 	s.strBasics(r.S)
+	if x.Sl == nil || !types.Identical(x.T.Underlying().(*types.Slice).Elem().Underlying(), types.Typ[types.Int32]) {
+		return r
+	}
+	s.used("string([]rune): newline-free / control-free rune arrays give newline-free / clean strings of len(runes) cells")
+	s.declRunePreds()
+	inner := s.runeElems(x.Sl.Base)
+	s.assume(implies(app("runesNoNL", inner), app("noNL", r.S)))
+	s.assume(implies(app("runesClean", inner), app("clean", r.S)))
+	s.assume(implies(and(app("runesNoNL", inner), app("runesClean", inner)), eq(app("vlen", r.S), x.Sl.Len)))
+	s.assume(implies(eq(x.Sl.Len, "0"), eq(r.S, "emp")))
 	return r
 }
 
+// []rune(s): assumed contract -- a fresh array; clean strings have one rune per cell.
 func (s *State) libStringToRunes(x Val, to types.Type) Val {
-	r := s.freshVal(to, "s2r")
-	s.assume(not(eq(r.Sl.Base, "0")))
-	s.assume(eq(r.Sl.Off, "0"))
+	s.strBasics(x.S)
+	n := s.c.freshConst("nrunes", sInt)
+	s.assume(and(app("<=", "0", n), app("<=", n, app("blen", x.S))))
+	b := s.newRef()
+	r := Val{T: to, Sl: &SliceV{b, "0", n, n}}
+	if !types.Identical(to.Underlying().(*types.Slice).Elem().Underlying(), types.Typ[types.Int32]) {
+		return r
+	}
+	s.used("[]rune(s): clean s has vlen(s)+nl(s) runes; newline-free / clean strings give newline-free / control-free rune arrays")
+	s.declRunePreds()
+	et := types.Typ[types.Rune]
+	key := elemKey(et, nil, "")
+	srt := arrSort(sInt, arrSort(sInt, sInt))
+	inner := s.c.freshConst("runes", arrSort(sInt, sInt))
+	s.heapSet(key, srt, sto(s.heapGet(key, srt), b, inner))
+	s.assume(implies(app("noNL", x.S), app("runesNoNL", inner)))
+	s.assume(implies(app("clean", x.S), app("runesClean", inner)))
+	s.assume(implies(app("clean", x.S), eq(n, app("+", app("vlen", x.S), app("nl", x.S)))))
+	s.assume(implies(eq(x.S, "emp"), eq(n, "0")))
+	s.assume(implies(app(">=", app("blen", x.S), "1"), app(">=", n, "1")))
 	return r
 }
 
